@@ -42,7 +42,7 @@ def apply_actions(
     :param problem_objects: the objects of the problem (needed to apply universal effects).
     :return: The state resulting from applying the actions.
     """
-    if len(joint_action) == 1:
+    if len(joint_action) == 1 and joint_action[0].name != NOP_ACTION:
         action_call = joint_action[0]
         action = domain.actions[action_call.name]
         return Operator(
